@@ -195,3 +195,8 @@ package identity
 //@   trusted
 //@   modifies nothing
 //@   ensures result1 == nil ==> result == ("git-bug.identity" in repository.cfgKeys)
+
+// Reading the configured user identity changes nothing.
+//@ func GetUserIdentity
+//@   trusted
+//@   modifies nothing
